@@ -1,4 +1,4 @@
-import NomtModel.Store.SegEffs
+import NomtModel.Store.SegInv
 import NomtModel.Store.DeltaLemmas
 import NomtModel.Store.SegFrameLemmas
 import NomtModel.Store.CrashLog
@@ -66,7 +66,7 @@ theorem T9_seglog_refines_list (maxLen : Nat) :
     rw [hres]
     exact ⟨rfl, rfl, flatRecs A, by rw [hd, flatRecs_append], hdead⟩
   · intro L i0 a n s' d I h1 h2 hs' hsn
-    obtain ⟨M, T, y, ny, _, _, _, _, _, heffs, _, hout, hend, _⟩ := pruneRecent_spec L d i0 a n I h1 h2
+    obtain ⟨M, T, y, ny, _, _, _, _, _, heffs, _, hout, hend, _, _⟩ := pruneRecent_spec L d i0 a n I h1 h2
     refine ⟨hout, hend, ?_⟩
     -- the directory afterwards is the image after all effects
     obtain ⟨_, _, _, hl⟩ := pruneRecent_images L d i0 a n I h1 h2 s' hs' hsn ((pruneRecent L d n).effs.length)
@@ -158,6 +158,39 @@ theorem T9_seglog_recovery_idempotent (maxSeg s e i0 a : Nat) (d d' : Dir) (R : 
   obtain ⟨i0', a', R', hl⟩ := recover_nested maxSeg s e i0 a d d' R h
   obtain ⟨L, hout, h1, h2⟩ := open_recoverable maxSeg s e i0' a' d' R'
   exact ⟨L, by rw [← hl]; exact hout, h1, h2⟩
+
+/-- **The consistent states are closed under the operations** (so the one-step theorems above chain over whole
+histories).  `Inv L d i0 a`: the in-memory `SegmentedLog` describes the directory (segments = files with their
+(id, min, max), head writer at the end of the last file, records `a … end_live` consecutive over non-empty files without
+torn tail).  It is (1) established by every successful `open` on a recoverable directory — in particular on every
+crash image —, (2) kept by `append` (as long as the 32-bit segment id does not wrap), (3) by `prune_oldest n`
+(`start ≤ n ≤ end`), (4) by `prune_recent n` (`max(a, start) ≤ n ≤ end`); the empty log (`InvEmpty`) is what
+`open(0, 0)` and pruning to nil leave, and (5) its first `append` creates segment 1 holding record 1. -/
+theorem T9_seglog_consistent_states_closed :
+    (∀ (maxSeg s e i0 a : Nat) (d : Dir), Recoverable s e i0 a d → 0 < a → i0 + d.length < U32 →
+      ∃ L recs i0' a', (openM maxSeg s e d).out = .ok (L, recs) ∧ Inv L (openM maxSeg s e d).dir i0' a') ∧
+    (∀ (L : Log) (i0 a : Nat) (d : Dir) (p : List UInt8), Inv L d i0 a → p.length ≤ MAXPAY → i0 + d.length + 1 < U32 →
+      Inv (append L d p).log (append L d p).dir i0 a) ∧
+    (∀ (L : Log) (d : Dir) (i0 a n : Nat), Inv L d i0 a → L.startLive ≤ n → n ≤ L.endLive →
+      ∃ i0' a', Inv (pruneOldest L d n).log (pruneOldest L d n).dir i0' a') ∧
+    (∀ (L : Log) (d : Dir) (i0 a n : Nat), Inv L d i0 a → a ≤ n → n ≤ L.endLive → L.startLive ≤ n →
+      Inv (pruneRecent L d n).log (pruneRecent L d n).dir i0 a) ∧
+    (∀ (maxSeg i0 : Nat) (d : Dir), 0 < i0 → SegIdsFrom i0 d →
+      ∃ L, (openM maxSeg 0 0 d).out = .ok (L, []) ∧ InvEmpty L (openM maxSeg 0 0 d).dir) ∧
+    (∀ (L : Log) (d : Dir) (i0 a : Nat), Inv L d i0 a → InvEmpty (removeAll L d).log (removeAll L d).dir) ∧
+    (∀ (L : Log) (p : List UInt8), p.length ≤ MAXPAY → InvEmpty L [] →
+      (append L [] p).out = .ok 1 ∧ Inv (append L [] p).log (append L [] p).dir 1 1 ∧
+        flatRecs (append L [] p).dir = [⟨1, p⟩]) :=
+  ⟨fun maxSeg s e i0 a d R ha h32 => open_inv maxSeg s e i0 a d R ha h32,
+   fun L i0 a d p I hp h32 => append_inv L i0 a d p I hp h32,
+   fun L d i0 a n I h1 h2 => pruneOldest_inv L d i0 a n I h1 h2,
+   fun L d i0 a n I h1 h2 h3 => pruneRecent_inv L d i0 a n I h1 h2 h3,
+   fun maxSeg i0 d hi hseg => open_empty_inv maxSeg i0 d hi hseg,
+   fun L d i0 a I => removeAll_empty L d i0 a I,
+   fun L p hp E => append_from_empty L p hp E⟩
+
+example : Inv (append exLog exDir [7]).log (append exLog exDir [7]).dir 1 1 :=
+  T9_seglog_consistent_states_closed.2.1 exLog 1 1 exDir [7] exInv (by decide) (by decide)
 
 /-- four one-record segments, live range `[1, 1]` (a rollback over three segments whose sync died after the meta) -/
 def f16Dir : Dir := [(1, ⟨[exRec 1], none⟩), (2, ⟨[exRec 2], none⟩), (3, ⟨[exRec 3], none⟩), (4, ⟨[exRec 4], none⟩)]
